@@ -1,0 +1,16 @@
+//go:build verif
+
+package kafkaproducer
+
+// Verification hook of engine E8 (build tag "verif" only; add-only): exports the unexported buildConfigMap of the
+// Kafka producer node.  Nothing here changes behaviour of existing code.
+
+import (
+	"github.com/confluentinc/confluent-kafka-go/kafka"
+)
+
+// ProducerBuildConfigMapE8V builds a zero-value KafkaProducer and calls its buildConfigMap.
+func ProducerBuildConfigMapE8V(params map[string]string) (*kafka.ConfigMap, error) {
+	k := &KafkaProducer{}
+	return k.buildConfigMap(params)
+}
